@@ -261,6 +261,23 @@ int main(int argc, char** argv) {
       HC_TRY(r = vt_token(vt_v, vt_nv, get(so->obj, key)));
       vt_free(key);
       emit(objs, "get", o, k, 0, 0, 0, "", hc_exc, r);
+    } else if (hc_is(0, "getalias")) {
+      /* getalias <o> <k> : the key argument is the VALUE object bound to k, which lives inside the container's own storage
+         (key and value types are of one kind here); it is an ordinary key like any other: looked up by its value */
+      int k = (int)hc_int(2);
+      var key = vt_make(vt_k, k);
+      volatile var inside = NULL; hc_exc = "";
+      HC_TRY(inside = mem(so->obj, key) ? get(so->obj, key) : NULL);
+      vt_free(key);
+      if (inside) {
+        int kk = vt_token(vt_k, vt_nk, inside);
+        volatile long long r = 0;
+        HC_TRY(r = vt_token(vt_v, vt_nv, get(so->obj, inside)));
+        emit(objs, "get", o, kk, 0, 0, 0, "", hc_exc, r);
+        volatile long long m2 = 0;
+        HC_TRY(m2 = mem(so->obj, inside) ? 1 : 0);
+        emit(objs, "mem", o, kk, 0, 0, 0, "", hc_exc, m2);
+      } else emit(objs, "snap", o, 0, 0, 0, 0, "", "", 0);
     } else if (hc_is(0, "mem")) {
       int k = (int)hc_int(2);
       var key = vt_make(vt_k, k);
